@@ -169,17 +169,15 @@ func indexUnescaped(data, sep []byte) int {
 }
 
 func firstMatch(data []byte, flags [][]byte) (pos, index int) {
-	pos = -1
-	index = pos
-
-	for i, flag := range flags {
-		if position := bytes.Index(data, flag); position >= 0 {
-			if pos > position || pos == -1 {
-				pos = position
-				index = i
+	// One pass, stop at the first position where any flag starts,
+	// never scan the whole data once per flag.
+	for i := range data {
+		for j, flag := range flags {
+			if bytes.HasPrefix(data[i:], flag) {
+				return i, j
 			}
 		}
 	}
 
-	return
+	return -1, -1
 }
